@@ -291,9 +291,38 @@ def rand_instr(rng, op=None):
         return [op, rng.choice([0x00, 0x01, 0x02, 0x04, 0x05, 0x06, 0x07, 0x0F, 0x40, 0x41, 0x44, 0x45, 0x46, 0x47, 0x80, 0xFE, 0xFF])]
     return [op] + [rng.randrange(256) for _ in range(n - 1)]
 
+NOFLAG_OPS = [0x00, 0x40, 0x41, 0x47, 0x4F, 0x57, 0x5F, 0x67, 0x6F, 0x78, 0x79, 0x06, 0x0E, 0x03, 0x13, 0x0B, 0x01, 0x11, 0xC5, 0xD5, 0xC1, 0xD1]
+
+def filler_prefix(rng):
+    out = []
+    for _ in range(rng.randint(0, 4)):
+        out += rand_instr(rng)
+    return out
+
+
+def template_block(rng):
+    """Instruction groups that share hidden state inside one block (the stack, the low nibble of F, the carry chain,
+    a read-modify-write cell): each engine may keep that state differently between the instructions."""
+    k = rng.randrange(6)
+    body = []
+    filler = lambda n: [b for _ in range(rng.randint(0, n)) for b in rand_instr(rng, rng.choice(NOFLAG_OPS))]
+    if k == 0:   body = [0xF1] + filler(3) + [0xF5] + filler(2) + [0xC1]                       # POP AF ... PUSH AF ; POP BC
+    elif k == 1: body = [rng.choice([0xC5, 0xD5, 0xE5, 0xF5])] + filler(2) + [rng.choice([0xC1, 0xD1, 0xE1, 0xF1])]
+    elif k == 2: body = [0xF8, rng.randrange(256), 0xF9, 0xE5, 0xE8, rng.randrange(256), 0xD1]  # LD HL,SP+e ; LD SP,HL ; PUSH HL ; ADD SP,e ; POP DE
+    elif k == 3:
+        op = rng.choice([0x8F, 0x9F, 0x17, 0x1F, 0xCE, 0xDE])
+        body = [rng.choice([0x37, 0x3F])] + filler(2) + ([op, rng.randrange(256)] if op in (0xCE, 0xDE) else [op]) + [0x27]
+    elif k == 4: body = [0x34, 0xCB, 0x46 + 8 * rng.randrange(8), 0xCB, 0x86 + 8 * rng.randrange(8), 0x35, 0xCB, 0xC6 + 8 * rng.randrange(8), 0x7E]
+    else:        body = [0xF1, 0x27, 0xF5, 0xF1, 0x8F, 0xF5]                                   # POP AF ; DAA ; PUSH AF ; POP AF ; ADC A,A ; PUSH AF
+    return body
+
+
 def random_block_scenario(sid, rng, maxlen=32):
     body = []
-    for _ in range(rng.randint(0, maxlen - 1)):
+    if rng.randrange(5) == 0:
+        body = filler_prefix(rng) + template_block(rng)
+    else:
+      for _ in range(rng.randint(0, maxlen - 1)):
         body += rand_instr(rng)
     term = rng.choice(sorted(BLOCK_END))
     tcode = rand_instr(rng, term)
@@ -404,15 +433,17 @@ def cache_history_scenario(sid, steps, cart, bankreg=0x2000, bankmap=(1, 2, 3)):
         elif sym == 3:
             a.emit(0xCD); a.word(LO_BLOCK)
         elif sym < 6:
+            if sym == 5: a.emit(0x16, 0x02)          # LD D,2: high block 1 loops onto its own start once before it returns
             a.emit(0xCD); a.word(HI_BLOCKS[sym - 4])
         else:
             a.emit(0x06, bankmap[sym - 6], 0xCD); a.word(0xC000)
     a.label("END"); a.jr(0x18, "END")
     chunks = [(0x100, [0x00, 0xC3, 0x50, 0x01]), (a.org, a.resolve()), (LO_BLOCK, [0x3E, 0x00, 0x0E, 0xE0, 0xC9])]
     for b in sorted(set(list(bankmap) + [1])):
-        for k, addr in enumerate(HI_BLOCKS):
-            chunks.append((b * 0x4000 + (addr - 0x4000), [0x3E, b, 0x0E, k, 0xC9]))
-    nsteps = 3 + sum(1 if x < 3 else (2 if x < 6 else 3) for x in steps) + 2
+        chunks.append((b * 0x4000 + (HI_BLOCKS[0] - 0x4000), [0x3E, b, 0x0E, 0, 0xC9]))
+        # high block 1: LD A,b ; LD C,1 ; DEC D ; JR NZ,start ; RET  -- a block that ends by jumping to its own start
+        chunks.append((b * 0x4000 + (HI_BLOCKS[1] - 0x4000), [0x3E, b, 0x0E, 1, 0x15, 0x20, 0xF9, 0xC9]))
+    nsteps = 3 + sum(1 if x < 3 else (2 if x == 3 or x == 4 else (4 if x == 5 else 3)) for x in steps) + 2
     return scenario(sid, chunks, cpu(pc=0x100, sp=0xFFFE), nsteps, mode="block", cart=cart)
 
 def cache_events(trace_lines):
@@ -475,6 +506,8 @@ def serial_program(sid, rng, nwrites=None, in_ram=False):
     body = Asm(0xC400 if in_ram else 0x0)     # assembled separately when it is to run from work RAM
     t = body if in_ram else a
     n = nwrites or rng.randint(4, 40)
+    if rng.randrange(3) == 0:
+        t.emit(0x3E, rng.choice([0xC1, 0x80, 0x00]), 0xE0, 0x46)      # an OAM DMA is in flight while the serial port is used
     for _ in range(n):
         reg = rng.choice([1, 2, 2, 2])
         v = rng.choice([0x80, 0x81, 0xFF, 0x00, 0x01, 0x7F]) if (reg == 2 and rng.randrange(3)) else rng.randrange(256)
@@ -582,8 +615,13 @@ def scene(sid, rng, kind="random"):
             obj(n, rng.randrange(256), rng.randrange(256), rng.randrange(256), rng.randrange(256))
     elif kind == "window":
         sc["lcdc"] |= 0x20
-        sc["wx"] = rng.choice([0, 1, 6, 7, 8, 20, 87, 159, 160, 165, 166, 167, 200])
-        sc["wy"] = rng.choice([0, 1, 50, 143, 144, 200])
+        sc["wx"] = rng.choice([0, 1, 2, 3, 4, 5, 6, 0, 3, 6, 7, 8, 20, 87, 159, 160, 165, 166, 167, 200])
+        sc["wy"] = rng.choice([0, 0, 1, 50, 143, 144, 200])
+        for k in range(0x1800, 0x2000, 32):             # first window-map column: tiles with non-uniform rows
+            vram[k] = rng.choice([t for t in range(384) if t < 256]) ; vram[k] = (vram[k] // 4) * 4
+        for t in range(0, 256, 4):
+            for r in range(8):
+                vram[16 * t + 2 * r] = rng.randrange(1, 255); vram[16 * t + 2 * r + 1] = rng.randrange(1, 255)
         for n in range(40):
             obj(n, rng.randrange(160), rng.randrange(176), rng.randrange(256), rng.randrange(256))
     elif kind == "crowded":
@@ -656,4 +694,47 @@ def dispatch_cancel_programs(rng):
                     out.append(scenario(sid, chunks, cpu(sp=spv, pc=pcbase), 6, ime=imeon,
                                         init_writes=[(0xFFFF, ie), (0xFF0F, iflag)], cart=(0, 0, 2), romfill=0x00))
                     sid += 1
+    return out
+
+
+
+def dma_machine_programs(rng):
+    """C16 at machine level: a transfer is started and the CPU then halts, stops, or keeps running (short and long
+    blocks); a second write restarts it; the source is edited meanwhile."""
+    out = []
+    sid = 9500000
+    for page in (0xC1, 0x80, 0x20, 0xA0, 0xFE, 0xD0, 0xE0):
+        for after in ("halt", "stop", "run", "restart", "edit"):
+            for tac in (5, 4):
+                a = Asm(0x150)
+                a.emit(0x31); a.word(0xDFF0)
+                a.emit(0x21); a.word(0xC100)
+                for i in range(12): a.emit(0x36, 0x10 + i, 0x23)              # some source bytes
+                a.emit(0x3E, 0xF0, 0xE0, 0x05, 0x3E, tac, 0xE0, 0x07)          # timer: wakes the halted CPU
+                a.emit(0x3E, 0x05, 0xE0, 0xFF, 0xFB)                           # IE = VBlank | timer ; EI
+                a.emit(0x3E, page, 0xE0, 0x46)                                 # start the transfer
+                if after == "halt": a.emit(0x76, 0x00, 0x76, 0x00)
+                elif after == "stop": a.emit(0x10, 0x00, 0x00)
+                elif after == "restart": a.emit(0x00, 0x00, 0x00, 0x3E, page, 0xE0, 0x46, 0x76, 0x00)
+                elif after == "edit": a.emit(0x21, 0x05, page if 0xC0 <= page < 0xE0 else 0xC1, 0x36, 0x77, 0x23, 0x36, 0x88, 0x76, 0x00)
+                else:
+                    for _ in range(40): a.emit(*alu_op(rng))
+                a.label("END"); a.jr(0x18, "END")
+                chunks = [(0x40, [0xD9]), (0x50, [0xD9]), (0x100, [0x00, 0xC3, 0x50, 0x01]), (a.org, a.resolve())]
+                out.append(scenario(sid, chunks, cpu(**BOOT), 260, cart=(1, 2, 2), romfill=0x00))
+                sid += 1
+    return out
+
+
+def lcd_off_frame_programs():
+    """C09: stepping to the next frame with the display switched off / on by the guest."""
+    out = []
+    sid = 9700000
+    for lcdc in (0x11, 0x00, 0x91, 0x80):
+        a = Asm(0x150)
+        a.emit(0x3E, lcdc, 0xE0, 0x40)
+        a.label("END"); a.jr(0x18, "END")
+        sc = scenario(sid, [(0x100, [0x00, 0xC3, 0x50, 0x01]), (a.org, a.resolve())], cpu(**BOOT), 6, cart=(0, 0, 2), romfill=0x00)
+        sc["frames"] = 2
+        out.append(sc); sid += 1
     return out
